@@ -12,6 +12,7 @@ import SplinkVerif.Drv.Descriptive
 import SplinkVerif.Drv.Accuracy
 import SplinkVerif.Drv.Serialise
 import SplinkVerif.Drv.Creators
+import SplinkVerif.Drv.Entry
 /-! Line-protocol driver: one JSON object per input line, one JSON object per output line. -/
 open Lean SplinkVerif.Drv
 
@@ -37,6 +38,7 @@ def dispatch (j : Json) : Except String Json := do
   | "ser_save" => handleSerSave j
   | "ser_load" => handleSerLoad j
   | "creator_calls" => handleCreatorCalls j
+  | "entry" => handleEntry j
   | "ping" => pure (Json.mkObj [("pong", Json.bool true)])
   | _ => throw s!"unknown op {op}"
 
